@@ -64,6 +64,27 @@ def generate(rng, tier):
         out.append(p)
     out += _gen_failed_exit_then_rerun(rng, 40 * n)
     out += _gen_caught_failed_extend(rng, 40 * n)
+    out += _gen_valued_returns(rng, 60 * n)
+    return out
+
+
+def _gen_valued_returns(rng, n):
+    """Doers that return values which are neither None nor a bool (3, 'finished', 0.5, 0), in enter or in a recur
+    step, listed in the Doist or nested in DoDoers: the flag becomes that very value."""
+    out = []
+    kinds = ("int", "str", "frac", "zero", "true", "false", "none")
+    for _ in range(n):
+        p = sc.gen_static(rng, n_leaves=rng.randint(1, 5), nest_depth=rng.choice([0, 0, 1, 2]), faults=False,
+                          tocks="dyadic", limit_p=0.2)
+        for d in p["defs"].values():
+            if d["kind"] in ("func", "bound", "doergen"):
+                for st in d["script"]:
+                    if st["out"][0] == "r":
+                        st["out"] = ["r", rng.choice(kinds)]
+        p["valued"] = True
+        if rng.random() < 0.3:
+            p["mode"] = "ado"
+        out.append(p)
     return out
 
 
@@ -269,7 +290,27 @@ def _oracle_caught(case, obs):
     return None
 
 
+def _oracle_values(case, obs):
+    if obs["raised"] != "none":
+        return f"do() raised: {obs['raised']}"
+    tr = obs["trace"]
+    raw = dict((i, r) for i, r in obs["dones_raw"])
+    ret = _returned(case, obs)
+    for i, r in ret.items():
+        d = case["defs"][str(i)]
+        if d["kind"] == "doer" or r == "?" or sum(1 for k, j, _ in tr if j == i and k == "Enter") != 1:
+            continue
+        want = repr(sc.RET[r]) if sc.RET[r] is not None else "False"
+        # (a generator-recur Doer that returns None keeps None: Doer.do assigns the value of `yield from`)
+        ok = {want} | ({"None"} if sc.RET[r] is None and d["kind"] == "doergen" else set())
+        if raw.get(i) not in ok:
+            return f"doer {i} finished by itself returning {sc.RET[r]!r} but its done flag is {raw.get(i)}"
+    return None
+
+
 def oracle(case, obs):
+    if case.get("valued"):
+        return _oracle_values(case, obs)
     if case.get("catch_ext"):
         return _oracle_caught(case, obs)
     if case.get("broad"):
